@@ -95,6 +95,11 @@ def ev(e, lookup, env, problem, kleene=False):
         if k == OK.LT:
             return a < b
         return a == b
+    if k == OK.INTERPRETED_FUNCTION_EXP:
+        args = [rec(a) for a in e.args]
+        if any(a is UNDEF for a in args):
+            return UNDEF
+        return e.interpreted_function().function(*args)
     raise NotImplementedError(f"reference semantics: operator {k}")
 
 
